@@ -297,6 +297,25 @@ theorem C17_filler_in_component_bodies_same_recipe_realEnv {α : Type} [Arith α
     SameRecipe ws (parseRecipe (α := α) (realEnv rext rconv) (render (pre' ++ docSpecF docF)))
       (parseRecipe (α := α) (realEnv rext rconv) (render (pre ++ docSpec doc))) :=
   C17_filler_in_component_bodies_same_recipe_real ws (realEnv rext rconv) rfl pre' pre docF doc h hclean hpre' hok hseps hw hfm
+
+/-- trailing comment / trailing blanks / block comment between words of step text under the CANONICAL parser, from the
+    well-formedness of the original alone (INLINE_QUANTITIES is off there; spelling and "no fence" of the transformed
+    text remain hypotheses, `C17_insertion_in_text_wellformed_partial`) -/
+theorem C17_insertion_in_text_same_recipe_canonical_partial {α : Type} [Arith α] (ws : Char → Bool) (pre : List Tok)
+    (D1 D2 : List (DocItem × List Tok)) (sep : List Tok) (S1 S2 : List SegX) (l1 F l2 : List Tok) (hF : IsFiller F)
+    (hvis : ∀ c ∈ F.flatMap vis, ws c = true) (hadj : BlankAdj ws (l1.flatMap vis) (l2.flatMap vis))
+    (hS2 : ∀ s, S2.head? = some s → s.isText = false)
+    (h : DocWF α (realEnv 0 0) pre (D1 ++ (DocItem.step (S1 ++ SegX.text (l1 ++ l2) :: S2), sep) :: D2))
+    (hw : WellSpelled realCharSpec (pre ++ docSpec (D1 ++ (DocItem.step (S1 ++ SegX.text (l1 ++ F ++ l2) :: S2), sep) :: D2)))
+    (hfm : parseFrontmatter realCharSpec
+      (render (pre ++ docSpec (D1 ++ (DocItem.step (S1 ++ SegX.text (l1 ++ F ++ l2) :: S2), sep) :: D2))) = none) :
+    SameRecipe ws
+      (parseRecipe (α := α) (realEnv 0 0)
+        (render (pre ++ docSpec (D1 ++ (DocItem.step (S1 ++ SegX.text (l1 ++ F ++ l2) :: S2), sep) :: D2))))
+      (parseRecipe (α := α) (realEnv 0 0)
+        (render (pre ++ docSpec (D1 ++ (DocItem.step (S1 ++ SegX.text (l1 ++ l2) :: S2), sep) :: D2)))) :=
+  C17_insertion_in_text_same_recipe_inline_off_partial (realEnv 0 0) ws (by decide) pre D1 D2 sep S1 S2 l1 F l2 hF hvis hadj
+    hS2 h hw hfm
 -- ===== end w6c17docwf =====
 
 end Cook
